@@ -76,12 +76,42 @@ class SymWorld(S.World):
     def index_map(self, name, new_sort, src_sort=None, n_src=1):
         return S.index_map(name, new_sort, n_src)
 
+    def index_map2(self, n1, n2, new1, new2, src1=None, src2=None):
+        """index array into a row-major product axis (R1*R2): entry (i',j') = rho1(i')*R2 + rho2(j'); also returns
+        the two component maps"""
+        v1, v2 = S.IV(new1), S.IV(new2)
+        both = S.IndexArr("map", S.Axis([v1, v2]), [K.app(n1, v1), K.app(n2, v2)], name=f"{n1}x{n2}")
+        return both, S.index_map(n1, new1), S.index_map(n2, new2)
+
+    def block_gaussian(self, tag, batch, parts):
+        """arbitrary Gaussian over a direct-sum space parts=[D1, D2]: block arrays mu, S (symmetric), L (symmetric), ld.
+        (no inverse relation between S and L is declared: for obligations that only need moments)"""
+        nb = len([b for b in batch if not (isinstance(b, int) and b == 1)])
+        mu = S.concatenate([S.atom_array(f"m{tag}{k}", *batch, p) for k, p in enumerate(parts)], axis=-1)
+
+        def blocks(pfx):
+            rows = []
+            for i, p in enumerate(parts):
+                row = []
+                for j, q in enumerate(parts):
+                    if i == j:
+                        row.append(S.atom_array(f"{pfx}{tag}{i}{j}", *batch, p, q, sym=[(nb, nb + 1)]))
+                    elif i < j:
+                        row.append(S.atom_array(f"{pfx}{tag}{i}{j}", *batch, p, q))
+                    else:
+                        row.append(S.swapaxes(S.atom_array(f"{pfx}{tag}{j}{i}", *batch, q, p), -1, -2))
+                rows.append(row)
+            return S.block(rows)
+        return dict(mu=mu, S=blocks("S"), L=blocks("L"), ld=S.atom_array(f"ld{tag}", *batch))
+
     def size(self, sort):
         return S.Dim.of(sort)
 
     def pick(self, name, src_sort=None):
         """index array of length one holding an arbitrary fixed component number"""
-        return S.IndexArr("map", S.UNIT, [K.app(name)], name=name)
+        r = S.IndexArr("map", S.UNIT, [K.app(name)], name=name)
+        r.zero = src_sort is None      # index 0 into an axis of size 1
+        return r
 
     # ---- spec-side linear algebra
     def inv(self, A):
@@ -343,6 +373,29 @@ class NumWorld:
         eye = np.eye(Dn)
         return dict(S=self.xp.asarray(s[..., None] * eye), L=self.xp.asarray((1.0 / s)[..., None] * eye),
                     ld=self.xp.asarray(np.sum(np.log(s), axis=-1)), s=self.xp.asarray(s))
+
+    def index_map2(self, n1, n2, new1, new2, src1=None, src2=None):
+        np = self.np
+        r1 = self.rng.integers(0, self.sizes[src1], size=self.sizes[new1])
+        r2 = self.rng.integers(0, self.sizes[src2], size=self.sizes[new2])
+        both = (r1[:, None] * self.sizes[src2] + r2[None, :]).reshape(-1)
+        # negative entries wrap (contract of jnp.take): use them for about half of the entries
+        neg = self.rng.random(both.shape) < 0.5
+        both = np.where(neg, both - self.sizes[src1] * self.sizes[src2], both)
+        self.inputs[n1], self.inputs[n2] = r1, r2
+        return self.xp.asarray(both), self.xp.asarray(r1), self.xp.asarray(r2)
+
+    def block_gaussian(self, tag, batch, parts):
+        np = self.np
+        sb = self._shape(batch)
+        n = sum(self.sizes[p] if isinstance(p, str) else int(p) for p in parts)
+        Sg = self._rand_spd(sb, n)
+        L = np.linalg.inv(Sg)
+        L = 0.5 * (L + np.swapaxes(L, -1, -2))
+        mu = self.rng.standard_normal(sb + (n,))
+        self.inputs[f"S{tag}"] = Sg
+        self.inputs[f"m{tag}"] = mu
+        return dict(mu=self.xp.asarray(mu), S=self.xp.asarray(Sg), L=self.xp.asarray(L), ld=self.xp.asarray(np.linalg.slogdet(Sg)[1]))
 
     def index_map(self, name, new_sort, src_sort=None, n_src=1):
         n_new = self.sizes[new_sort]
